@@ -104,6 +104,12 @@ PROPS["C22"] = dict(expect_probes=["reader_script", "writer_script"], engine="D1
     level_note="Trusted: simrt/simio, the positional stream model. The std comparison is limited to operations whose contract did not change since the fork and stops after the first Unread*.",
     technique="deterministic simulation: seeded operation histories over seeded segmenting/failing I/O endpoints; stream-position and counter invariants after every step")
 
+PROPS["C24"] = dict(expect_probes=["stream_fully_agreed", "hostile_stream"], engine="D2", runs=(20000, 1000000), modes=[("nofault", 0.3), ("swarm", 0.7)], race=False,
+    level="exploration", design="§6 Engine D / C24",
+    level_text="Streams of 1-4 requests (GET/HEAD/POST/PUT, Content-Length and chunked bodies with trailers, duplicate identical lengths, OWS) mixed with smuggling shapes (conflicting Content-Length headers and lists, +N / 0xN lengths, whitespace before the colon, invalid field-name bytes, Transfer-Encoding gzip / chunked-not-last / xchunked / identity,chunked / two lines, CL together with TE) are fed to the real ReadRequest in seeded segments, reading each body as conn.serve does. Oracle: a strict RFC 7230 reference parser run on the same bytes: every request BFE accepts has the reference's request line, fields and body at the same position; whatever the reference must reject BFE rejects; fault-free valid streams are read completely.",
+    level_note="Trusted: simrt/simio, href.ParseRequest (strict: rejects bare LF, obs-fold, invalid tokens, non-digit or conflicting lengths, codings other than a single final chunked; Content-Length together with chunked is framed by chunked per RFC 7230 3.3.3). BFE being stricter than the reference is not flagged. Input-driven; the simulation contributes segmentation.",
+    technique="deterministic simulation: seeded segmentation of a multi-request byte stream feeding the real parser, differential against an executable RFC 7230 reference")
+
 NOT_APPLICABLE = {
     "C10": "pure function of (host table, VIP table, Host header): no goroutine, clock, stream, file or peer takes part; the only thing to vary is input, which is generation, not simulation (DESIGN §7)",
     "C11": "basic-rule tree lookup is a pure function of (rule set, host, path); nothing to schedule or fault (DESIGN §7)",
